@@ -1229,13 +1229,13 @@ PROPS = {
     'C02': {'level_text': "Service!Deterministic (history variable answers: request -> set of answers) validated by Trace_Repeat on recorded histories: every request of a pool (all methods x random bias sequences, seeded orders, near-ties inside the methods' tolerances, rejected requests) executed repeatedly in one process and in several fresh processes in shuffled order; byte equality by digest", 'level_note': 'map-order dependence is only found probabilistically (R repetitions x P processes); MC_Service shows the design has no history dependence', 'families': ['repeat'], 'nontrivial': lambda o: o.get('status') == 200,
             'rule': 'events = executions of a pool of requests (all methods x random bias sequences, seeded random orders, rejected requests), repeated in-process and in several fresh processes in shuffled order; non-trivial = execution of an accepted request; distinct by request id',
             'nt_key': lambda o: o.get('rid')},
-    'C10': {'level_text': "MC_Service explores every interleaving of two (three) handlers' steps with Isolation / RegistryUntouched / Deterministic (named deviation SharedIterator must violate Isolation); MC_Schedules enumerates gate schedules, replayed by a blocking hook (gated) and compared with solo responses; free run of 16 goroutines through the real handler built with -race on a cold process, responses compared with solo, race reports counted", 'level_note': 'gates serialise handlers between hook points (no interleaving inside a bias or Evaluate): state shared there is caught by the free run / race detector, which is an auxiliary observer and probabilistic', 'families': ['conc_model', 'conc_gated', 'conc_free'], 'nontrivial': lambda o: True,
+    'C10': {'proofs': ['Service_proofs'], 'level_text': "MC_Service explores every interleaving of two (three) handlers' steps with Isolation / RegistryUntouched / Deterministic (named deviation SharedIterator must violate Isolation); MC_Schedules enumerates gate schedules, replayed by a blocking hook (gated) and compared with solo responses; free run of 16 goroutines through the real handler built with -race on a cold process, responses compared with solo, race reports counted; TLAPS (spec/proofs/Service_proofs.tla, 193 obligations) proves Isolation, RegistryUntouched and single-valued answers for ANY number of clients and any request pool", 'level_note': 'gates serialise handlers between hook points (no interleaving inside a bias or Evaluate): state shared there is caught by the free run / race detector, which is an auxiliary observer and probabilistic', 'families': ['conc_model', 'conc_gated', 'conc_free'], 'nontrivial': lambda o: True,
             'rule': 'gated = one run per (TLC-generated schedule x request tuple); free = batches of ungated concurrent requests through the real handler built with -race; distinct by schedule + requests'},
-    'C20': {'level_text': 'Service.tla handler state machine model-checked (Survives, StatusClass, liveness Answered under weak fairness; GuardDiverging = FALSE must violate Survives); a session of valid requests, every documented constraint violated singly (Validate.tla decides the expected class from the request), malformed / mistyped / extreme / byte-mutated bodies against the REAL server process on loopback, liveness probe (GET /api/preferenceFunctions lists seven schemas) after every request; Trace_Service carries `alive`', 'level_note': 'gin internals and byte-level JSON are exercised, not modelled; per-request timeout 20 s counts as no answer', 'families': ['service'], 'nontrivial': lambda o: o['case'].get('expect') in ('reject', 'any'),
+    'C20': {'proofs': ['Service_proofs'], 'level_text': 'Service.tla handler state machine model-checked (Survives, StatusClass, liveness Answered under weak fairness; GuardDiverging = FALSE must violate Survives); a session of valid requests, every documented constraint violated singly (Validate.tla decides the expected class from the request), malformed / mistyped / extreme / byte-mutated bodies against the REAL server process on loopback, liveness probe (GET /api/preferenceFunctions lists seven schemas) after every request; Trace_Service carries `alive`; TLAPS proves Survives and StatusClass for any number of clients and any pool (the deviation GuardDiverging = FALSE must make the proof fail)', 'level_note': 'gin internals and byte-level JSON are exercised, not modelled; per-request timeout 20 s counts as no answer', 'families': ['service'], 'nontrivial': lambda o: o['case'].get('expect') in ('reject', 'any'),
             'rule': 'cases = valid requests of all methods, every documented constraint violated singly, malformed / mistyped / mutated bodies, sent as one session to the real server process; non-trivial = request that is not a plain valid one; distinct by body'},
     'C09': {'level_text': 'digests of the request, of every state handed on, of every report and of the pre-bias state taken at the hook point and again after the decision; earlier results re-digested after later calls; reports compared field by field with the state the next stage received (Biases.tla); histories: same request again after other (also rejected) requests, error-path sandwiches; JSON-decoded and exact-capacity inputs', 'level_note': 'library path (MakeDecision) with registries of main.go; identity of Go objects observed through digests, not modelled in TLA+', 'families': ['c09', 'pipeline'], 'nontrivial': nt_pipeline,
             'rule': 'non-trivial = library-path decision in which at least one bias fired (reports and handed-on states exist to be compared); distinct by request'},
-    'C08': {'level_text': 'echo, skip-is-identity, p=1 always / p=0 never on every pipeline line; draw independence and monotonicity as satisfiability of one hidden draw per (seed, position) across groups of runs that differ in other entries / own probabilities / inserted disabled entries (incl. unknown names); firing frequency over 600 (4000) seeds within 7 sigma; FireRule, BiasEcho, SkipIsIdentity are invariants of MC_Decision over all draws', 'level_note': 'frequency clause is statistical (false alarm < 1e-11)', 'families': ['c08', 'pipeline'], 'nontrivial': lambda o: len(o['case']['req'].get('biases', [])) >= 1 and o.get('status') == 200,
+    'C08': {'proofs': ['Decision_proofs'], 'level_text': 'echo, skip-is-identity, p=1 always / p=0 never on every pipeline line; draw independence and monotonicity as satisfiability of one hidden draw per (seed, position) across groups of runs that differ in other entries / own probabilities / inserted disabled entries (incl. unknown names); firing frequency over 600 (4000) seeds within 7 sigma; FireRule, BiasEcho, SkipIsIdentity are invariants of MC_Decision over all draws; TLAPS proves FireRule (hence P1Always / P0Never for draws in 0..3), the echo bookkeeping and SkipIsIdentity for bias lists of any length', 'level_note': 'frequency clause is statistical (false alarm < 1e-11)', 'families': ['c08', 'pipeline'], 'nontrivial': lambda o: len(o['case']['req'].get('biases', [])) >= 1 and o.get('status') == 200,
             'rule': 'non-trivial = accepted request with at least one requested bias; distinct by request (seed included)'},
     'C19': {'level_text': 'reference point within the admissible set (coefficient-weighted best/worst, cross-multiplied for cost), scaling = 1/range, mapped differences through linear gain/loss exactly (either branch within rounding of 0 after real-valued biases), inline: new = bound(v + range*coef), applied differences = new - old, untouched not-considered unless asked, zero functions = identity; new criterion: mid + half * importance-weighted mean (exact where small, interval otherwise), report = next state', 'level_note': 'expFromZero: sign / zero-multiplier clauses only', 'families': ['pipeline'], 'nontrivial': lambda o: any(e.get('fired') and 'perReferencePointsDifferences' in str(e.get('report')) for e in o.get('events', [])),
             'rule': 'non-trivial = request in which an anchoring bias fired; distinct by request'},
@@ -1247,7 +1247,7 @@ PROPS = {
             'rule': 'non-trivial = request in which a preference-reversal bias fired; distinct by request'},
     'C17': {'level_text': "interval contract |v'-v| <= |f v| pushed through the monotone bounding (raise to 0, then clip to the scaled range of the current data), f=0 identity, zero stays zero, report lists = state handed on, criteria/parameters unchanged, both directions among >= 30 moved values", 'level_note': 'u and the sign are seeded real numbers: only interval/relational clauses; exp ratio taken from the report', 'families': ['pipeline'], 'nontrivial': lambda o: any(e.get('fired') and 'effectiveFatigueRatio' in str(e.get('report')) for e in o.get('events', [])),
             'rule': 'non-trivial = request in which a fatigue bias fired; distinct by request'},
-    'C07': {'level_text': "Decision.tla (abstract pipeline: criteria / value cover / parameter cover / split / touched values) model-checked for all bias lists up to length 2-3 with Coherent, SplitStable, Persistence; every emitted list x 7 methods plus seeded random pipelines (length <= 4, all options) and the repository's examples run through the library with hook H1; TLC validates after every bias: values and parameters cover exactly the current criteria (probe Evaluate/RankCriteriaAscending on a copy), split unchanged, criteria delta = reported delta, untouched values persist, status 200", 'level_note': 'coherence of private parameter types is observed operationally (probe) and through reflective dumps; a bias removing every criterion is outside the domain', 'families': ['pipeline'], 'nontrivial': nt_pipeline,
+    'C07': {'proofs': ['Decision_proofs'], 'level_text': "Decision.tla (abstract pipeline: criteria / value cover / parameter cover / split / touched values) model-checked for all bias lists up to length 2-3 with Coherent, SplitStable, Persistence; every emitted list x 7 methods plus seeded random pipelines (length <= 4, all options) and the repository's examples run through the library with hook H1; TLC validates after every bias: values and parameters cover exactly the current criteria (probe Evaluate/RankCriteriaAscending on a copy), split unchanged, criteria delta = reported delta, untouched values persist, status 200; TLAPS (spec/proofs/Decision_proofs.tla, 119 obligations) proves Coherent, SplitStable, Persistence for EVERY bias list, criteria set and draw sequence, not only the bounded instances", 'level_note': 'coherence of private parameter types is observed operationally (probe) and through reflective dumps; a bias removing every criterion is outside the domain', 'families': ['pipeline'], 'nontrivial': nt_pipeline,
             'rule': 'non-trivial = request in which at least one bias fired; distinct by request'},
     'C06': {'level_text': 'dominance, identical-alternatives, listing-order and weight-scaling relations evaluated by TLC on real ELECTRE III runs (each instance with a permuted twin and twins with all k x2 and x1/4); the same lemmas (CredOfDominator, DominanceLemma, IdenticalLemma, ScaleLemma) are invariants of MC_ElectreE on the definition; twins with every k x 2^-30 .. 2^10 and near-twin values (2^-44 apart) in four listing orders; a screened family runs 100 000 (thorough: 1 000 000) instances with dominated neighbours (shadow alternatives one or two steps worse, differences equal to thresholds) through the real code, a Go-side pre-check selects the suspicious ones and TLC judges those plus an even sample', 'level_note': 'relations are comparison-only (float-safe); a change that alters indices without breaking these relations is reported by C05, not here; the Go-side pre-check of the screened family only selects cases, every verdict is TLC\'s', 'families': ['electre', 'electre_dom'], 'nontrivial': nt_electre2,
             'rule': 'non-trivial = accepted ELECTRE III request whose two preorders are not both a single class; distinct by request'},
